@@ -591,7 +591,10 @@ namespace
             {
                 ptr_t np(leaf, fm::joint_size(additional), n, m);
                 if (must_fail)
-                    fail("overrun-not-refused", "a joint request that cannot fit did not throw");
+                    fail("overrun-not-refused", "a joint request that cannot fit did not throw (object at residue "
+                                                    + std::to_string(reinterpret_cast<uintptr_t>(np.get()) % 16)
+                                                    + " mod 16, additional " + std::to_string(additional) + ", used "
+                                                    + std::to_string(used_bytes(np)) + ")");
                 sp = std::move(np);
             }
             catch (fm::out_of_fixed_memory&)
@@ -610,6 +613,9 @@ namespace
             }
             if (fail.failed)
                 return;
+            if (std::getenv("VF_TRACE"))
+                std::fprintf(stderr, "  create additional=%zu n=%zu m=%zu -> obj=%p used=%zu\n", additional, n, m,
+                             static_cast<void*>(sp.get()), sp ? used_bytes(sp) : 0);
             if (out_of(leaf.owner()) != before + 1)
                 fail("not-one-allocation", "creating a joint object made "
                                                + std::to_string(out_of(leaf.owner()) - before)
